@@ -19,36 +19,36 @@ var propInfo = map[string]PropInfo{
 		NotDecided: "convergence of replicas under all delivery orders (go-ds-crdt), thresholds as numbers, datastore behaviour on partial batch failure.",
 	},
 	"C03": {
-		Decides:    "Decides: every metric entering the current/candidate/priority sets passed the exclusion-list test; candidates come only from the monitor's latest valid metrics; allocation is preceded by replication-factor validation; the -1 (everywhere) case returns an empty list without allocating; both allocators put priority peers first, sort with one direction each (opposite between them), and the sorter skips discarded and non-numeric metrics.",
+		Decides:    "Decides: every metric entering the current/candidate/priority sets passed the exclusion-list test; candidates come only from the monitor's latest valid metrics; allocation is preceded by replication-factor validation; the -1 (everywhere) case returns an empty list without allocating; both allocators put priority peers first, sort with one direction each (opposite between them), and the sorter skips discarded and non-numeric metrics. Also: preset allocations are cleared under the everywhere test evaluated after the configured defaults replaced unset factors; the option comparison that decides whether allocation is skipped (PinOptions.Equals, R04.2/R04.6) reads every field of both operands.",
 		NotDecided: "the needed/wanted arithmetic, truncation to max, min <= |result| <= max (numeric over runtime map sizes).",
 	},
 	"C04": {
-		Decides:    "Decides: every cluster-level entry point that can reach Consensus.LogPin/LogUnpin does so only behind the follower-mode guard; PinOptions.Equals / Pin.Equals compare every field, map and slice fields symmetrically; LogPin in pin() is preceded by successful setupPin (factor validity, expiry, type and mode checks); Unpin's type switch is exhaustive and only data/meta arms log an unpin; PinUpdate never reaches LogUnpin and logs the stored source pin with only cid/update/name/expiry replaced; the same-options shortcut requires an existing pin, equal options and an empty exclusion list.",
+		Decides:    "Decides: every cluster-level entry point that can reach Consensus.LogPin/LogUnpin does so only behind the follower-mode guard; PinOptions.Equals / Pin.Equals compare every field, map and slice fields symmetrically; LogPin in pin() is preceded by successful setupPin (factor validity, expiry, type and mode checks); Unpin's type switch is exhaustive and only data/meta arms log an unpin; PinUpdate never reaches LogUnpin and logs the stored source pin with only cid/update/name/expiry replaced; the same-options shortcut requires an existing pin, equal options and an empty exclusion list. Also: the membership flags of the nested element comparisons in Equals are per element (not carried across iterations).",
 		NotDecided: "the allocation attached to the stored pin (C03), histories of calls, what consensus does with the logged pin.",
 	},
 	"C05": {
-		Decides:    "Decides: every re-issued pin operation carries the pin object received from Track or read from the shared state (never a default pin built from the bare CID); a full queue sets the error, cancels and returns an error; the worker sets in-progress before the IPFS call, error+cancel on failure, done+cancel+clean on success; Track ignores meta pins, unpins remote pins, enqueues the given pin otherwise; TrackNewOperation dedupes only same-type unfinished operations and cancels the one it replaces, under the tracker lock.",
+		Decides:    "Decides: every re-issued pin operation carries the pin object received from Track or read from the shared state (never a default pin built from the bare CID); a full queue sets the error, cancels and returns an error; the worker sets in-progress before the IPFS call, error+cancel on failure, done+cancel+clean on success; Track ignores meta pins, unpins remote pins, enqueues the given pin otherwise; TrackNewOperation dedupes only same-type unfinished operations and cancels the one it replaces, under the tracker lock. Also: no exit of enqueue precedes the recording of the request in the operation tracker; each queue channel reaches the send only on paths where the operation type is the matching one.",
 		NotDecided: "quiescence, interleavings of completions, the daemon's actual state.",
 	},
 	"C06": {
-		Decides:    "Decides: every entry returned by StatusAll passed Match(filter); the filter shortcut masks in localStatus cover every status the guarded regions can produce; Operation.ToTrackerStatus is total over (type, phase) with each pair mapped to the status class the property names; Status and StatusAll put the unexpectedly-unpinned case in the same class and decide meta before remote before IPFS; tracker-status string table covers every constant and the composite filters equal the OR of their members; GlobalPinInfo is keyed by peer.",
+		Decides:    "Decides: every entry returned by StatusAll passed Match(filter); the filter shortcut masks in localStatus cover every status the guarded regions can produce; Operation.ToTrackerStatus is total over (type, phase) with each pair mapped to the status class the property names; Status and StatusAll put the unexpectedly-unpinned case in the same class and decide meta before remote before IPFS; tracker-status string table covers every constant and the composite filters equal the OR of their members; GlobalPinInfo is keyed by peer. Also: StatusAll overlays the complete list of tracked operations onto the local listing unconditionally (as Status does per CID); a full queue leaves an error entry, never a stale queued one (R05.2).",
 		NotDecided: "truth with respect to the daemon's actual pin set; quiescence; cluster-wide aggregation over runtime peer sets.",
 	},
 	"C07": {
-		Decides:    "Decides: every RPC method of the five registered services has a policy entry and vice versa; the authorisation closure returns true only for open endpoints, the trust predicate's answer for trusted ones and false otherwise, and is installed on both server constructions; no open endpoint can reach pinset writes, tracker or IPFS-driving calls; no endpoint is more permissive than the reviewed table and new endpoints are closed (or trusted with a remote caller); the trust predicates, Trust/Distrust and the pubsub validator have the required shape and validator registration is fail-closed.",
+		Decides:    "Decides: every RPC method of the five registered services has a policy entry and vice versa; the authorisation closure returns true only for open endpoints, the trust predicate's answer for trusted ones and false otherwise, and is installed on both server constructions; no open endpoint can reach pinset writes, tracker or IPFS-driving calls; no endpoint is more permissive than the reviewed table and new endpoints are closed (or trusted with a remote caller); the trust predicates, Trust/Distrust and the pubsub validator have the required shape and validator registration is fail-closed. Also: the reset TrustAll = false dominates every successful exit of the JSON loader (the default is trust-all).",
 		NotDecided: "libp2p's authentication of the remote peer id, gorpc's own dispatch, pubsub signature checking.",
 		Exhaustive: "the RPC policy table and the RPC method sets of the five services (finite tables enumerated completely)",
 	},
 	"C08": {
-		Decides:    "Decides type- and table-level necessary conditions: no record type crossing a json/msgpack boundary contains a non-empty interface without custom (un)marshalers; codec/json keys are unique per struct after embedding; protobuf writer and reader touch the same fields and every api.Pin field is restored; query-string writer keys are a subset of reader keys; enum string tables are mutually inverse on the declared constants; decoder functions do not panic, use unchecked type assertions or drop callee errors.",
+		Decides:    "Decides type- and table-level necessary conditions: no record type crossing a json/msgpack boundary contains a non-empty interface without custom (un)marshalers; codec/json keys are unique per struct after embedding; protobuf writer and reader touch the same fields and every api.Pin field is restored; query-string writer keys are a subset of reader keys; enum string tables are mutually inverse on the declared constants; decoder functions do not panic, use unchecked type assertions or drop callee errors. Also: slices sized beforehand and filled by index in a decoder get their element on every path that continues the loop (no nil hole).",
 		NotDecided: "value equality after decode(encode(x)), sub-second expiry, behaviour of the codec/protobuf/multiaddr/cid libraries on arbitrary bytes.",
 	},
 	"C09": {
-		Decides:    "Decides: LatestValid appends at most one metric per peer and only when it is valid and unexpired; LatestMetrics returns unfiltered metrics only when no peerset is known; the failure checker reports failure only when there is no metric or the latest expired; after the alert threshold the peer's metrics are forgotten and no alert is sent; ping TTL is a multiple >1 of the ping interval and informer metrics are re-published at a fraction <1 of their TTL.",
+		Decides:    "Decides: LatestValid appends at most one metric per peer and only when it is valid and unexpired; LatestMetrics returns unfiltered metrics only when no peerset is known; the failure checker reports failure only when there is no metric or the latest expired; after the alert threshold the peer's metrics are forgotten and no alert is sent; ping TTL is a multiple >1 of the ping interval and informer metrics are re-published at a fraction <1 of their TTL. Also: Discard is evaluated on all four (Valid, Expired) combinations; one effective timer re-arm per publishing round, and TTL/k_ok + TTL/k_err < TTL so that one failed publish is retried before expiry.",
 		NotDecided: "arrival histories, window wrap-around, 'alerts once' across check rounds.",
 	},
 	"C10": {
-		Decides:    "Decides: every repin is behind the re-pinning-enabled test (and, for alerts, behind non-follower, ping-metric, was-allocated and closest-peer tests); repin passes the failed peer as exclusion and the listed pin itself with allocations cleared; the repin paths cannot reach LogUnpin; PeerRemove vacates before removing; the expiry sweep unpins only expired pins for which this peer is closest and not in follower mode.",
+		Decides:    "Decides: every repin is behind the re-pinning-enabled test (and, for alerts, behind non-follower, ping-metric, was-allocated and closest-peer tests); repin passes the failed peer as exclusion and the listed pin itself with allocations cleared; the repin paths cannot reach LogUnpin; PeerRemove vacates before removing; the expiry sweep unpins only expired pins for which this peer is closest and not in follower mode. Also: neither a return nor a break after one re-pin can end a re-pin sweep.",
 		NotDecided: "that exactly one peer is closest (hash arithmetic, peerset agreement), re-allocation counts (C03).",
 	},
 	"C11": {
@@ -61,7 +61,7 @@ var propInfo = map[string]PropInfo{
 		NotDecided: "byte-identical relay (httputil.ReverseProxy), semantics of add options.",
 	},
 	"C13": {
-		Decides:    "Decides the pinning discipline only: Finalize is not reached after an add error, iterator error or cancellation; only the finalisers/shard flush pin through the adder; the root pin's allocations are the allocations the blocks were sent to; sharded pins are built with the type/depth/reference shape the pin validator requires.",
+		Decides:    "Decides the pinning discipline only: Finalize is not reached after an add error, iterator error or cancellation; only the finalisers/shard flush pin through the adder; the root pin's allocations are the allocations the blocks were sent to; sharded pins are built with the type/depth/reference shape the pin validator requires. Also: every pin of the sharding finaliser and of the shard flush is dominated by the successful delivery of the DAG it pins and no block is sent after a pin; a block counts as delivered only if some destination took it.",
 		NotDecided: "DAG closure, byte identity, root equality with the IPFS importer, shard size arithmetic, partial block-put failures.",
 	},
 	"C14": {
@@ -69,7 +69,7 @@ var propInfo = map[string]PropInfo{
 		NotDecided: "backup rotation arithmetic, file-system effects, snapshot store behaviour.",
 	},
 	"C15": {
-		Decides:    "Decides: every field of every component's JSON struct is both saved and loaded; every loader returns through Validate; the section dispatcher covers all section types; JSON fields derived from secrets are tagged hidden and every ToDisplayJSON goes through DisplayJSON, which replaces exactly the hidden fields.",
+		Decides:    "Decides: every field of every component's JSON struct is both saved and loaded; every loader returns through Validate; the section dispatcher covers all section types; JSON fields derived from secrets are tagged hidden and every ToDisplayJSON goes through DisplayJSON, which replaces exactly the hidden fields. Also: config.SetIfNotDefault skips exactly the zero value; no JSON setting is read only under a condition on a different setting; pointer-typed settings are assigned directly under a nil test.",
 		NotDecided: "that defaults pass Validate, value-level round trip of durations/multiaddresses, envconfig parsing.",
 		Exhaustive: "the ComponentConfig implementations and their JSON struct fields (finite tables)",
 	},
@@ -78,7 +78,7 @@ var propInfo = map[string]PropInfo{
 		NotDecided: "the daemon's behaviour, stalls, partial progress streams.",
 	},
 	"C17": {
-		Decides:    "Decides: AddVoter only for absent peers, RemoveServer only for present peers and never the last one, and these are the only membership calls; ready is signalled only after WaitForSync (leader, voter, updates in order); AddPeer/RmPeer return nil only when committed or redirected; a removed peer sets removed before shutting down and cleans consensus data only after consensus shutdown succeeded.",
+		Decides:    "Decides: AddVoter only for absent peers, RemoveServer only for present peers and never the last one, and these are the only membership calls; ready is signalled only after WaitForSync (leader, voter, updates in order); AddPeer/RmPeer return nil only when committed or redirected; a removed peer sets removed before shutting down and cleans consensus data only after consensus shutdown succeeded. Also: the backup rotation vacates the oldest slot recursively before renaming, the live folder is moved as the last step, every exit of CleanupRaft is dominated by removal or backup, and no flat os.Remove is used in consensus/raft.",
 		NotDecided: "agreement of all members (Raft), staging to voter promotion, joiner catch-up.",
 	},
 	"C18": {
